@@ -163,6 +163,8 @@ package sourceaddrs
 //@   sweep
 //@   requires C19.u: u != nil
 //@   ensures C07.make.policy: err == nil ==> remotePolicy(r) && r.pkg.sourceType == sourceType && r.subPath == subPath && r.pkg.url.User == old(u.User)
+// the URL handed out is the one the source type prepared (checked and normalised), not a copy taken before that
+//@   ensures C07.make.prepared-url: err == nil ==> r.pkg.url.RawQuery == u.RawQuery && r.pkg.url.Scheme == u.Scheme && r.pkg.url.Path == u.Path && r.pkg.url.Host == u.Host
 //@   assume init.types: typeTableOK(sourceType)
 
 //@ func MakeRemoteSource -> (r, err)
